@@ -5,7 +5,7 @@ from collections.abc import Sequence
 from collections.abc import Set as AbstractSet
 from dataclasses import dataclass
 from io import StringIO
-from typing import IO, Any, Generic, TypeAlias
+from typing import IO, Any, ClassVar, Generic, TypeAlias
 
 from typing_extensions import Self, TypeVar
 
@@ -769,6 +769,13 @@ class RdRsImmShiftOperation(RISCVInstruction, ABC, Generic[ShiftImmT, ShiftImmAt
     assembly_format = (
         "$rs1 `,` $immediate attr-dict `:` `(` type($rs1) `)` `->` type($rd)"
     )
+
+    ZERO_IMMEDIATE_IS_IDENTITY: ClassVar[bool] = True
+    """
+    Whether the operation returns `rs1` unchanged when the immediate is 0.
+    This holds for shifts and rotates, but not for the single-bit instructions that
+    share this format (`bseti x, 0` sets bit 0).
+    """
 
     def __init__(
         self,
